@@ -669,6 +669,27 @@ pub async fn run_case(backend: &str, seed: u64, rep: &mut Report, ops: &mut Vec<
             cx.rep.count_n("c10:packs-inspected", packs as u64);
         }
     }
+    // C10: a folder unlocks, and its password verifies, only with its own password
+    {
+        use sos_backend::AccessPoint; use sos_reducers::FolderReducer;
+        let a = w.devices[0].lock().await;
+        let mut keys: Vec<(VaultId, sos_core::crypto::AccessKey)> = vec![];
+        for (fid, _) in live.iter() { if let Ok(Some(k)) = a.find_folder_password(fid).await { keys.push((*fid, k)); } }
+        let near: sos_core::crypto::AccessKey = secrecy::SecretString::from("correct horse battery staple verif ".to_string()).into();
+        for (fid, own) in keys.iter() {
+            let Ok(log) = a.folder_log(fid).await else { continue };
+            let vault = { let l = log.read().await; match FolderReducer::new().reduce(&*l).await { Ok(r) => match r.build(true).await { Ok(v) => v, Err(_) => continue }, Err(_) => continue } };
+            if vault.verify(own).await.is_err() { cx.fail("c10-own-password-does-not-verify", &format!("folder {fid}: Vault::verify refuses the folder's own password")); }
+            let mut others: Vec<&sos_core::crypto::AccessKey> = keys.iter().filter(|(f, _)| f != fid).map(|(_, k)| k).take(1).collect();
+            others.push(&near);
+            for other in others {
+                cx.rep.count("c10:foreign-password-tried");
+                if vault.verify(other).await.is_ok() { cx.fail("c10-foreign-password-verifies", &format!("folder {fid}: Vault::verify accepts a password that is not the folder's own")); }
+                let mut k = AccessPoint::from_vault(vault.clone());
+                if k.unlock(other).await.is_ok() { cx.fail("c10-foreign-password-unlocks", &format!("folder {fid}: unlocked with a password that is not its own")); }
+            }
+        }
+    }
     let s = cx.script.join(";");
     cx.rep.case(&s, true);
     if seed % 40 == 0 { let sc = cx.script.clone(); cx.rep.sample(json!({"script": sc})); }
